@@ -118,6 +118,7 @@ pub fn run(args: &Args, rep: &mut Report) {
                                 scfg.props = ["C01", "C02", "C03", "C04"].into_iter().collect();
                                 scfg.nhandles = 2;
                                 scfg.lib_walk = cs <= 4096;
+                                scfg.short_dev = if n % 3 == 2 { Some(0x5eed + n as u64) } else { None };
                                 let mut src = VecSource::new(ops);
                                 let o = run_session(&scfg, &img, vb, class, &mut src);
                                 rep.evaluations += o.counters.api_calls;
